@@ -1,1 +1,72 @@
-From PK Require Import Monitor.Monitor Monitor.Spec Monitor.MonitorCases.
+(* Property C18: policies in force follow the policy files; the built-in policies are
+   untouchable; invalid files are rejected as a whole.
+   Models: Monitor/Monitor.v (scan_policies), Monitor/Spec.v (the property). *)
+From Coq Require Import ZArith List Bool.
+From PK Require Import Monitor.AList Monitor.Monitor Monitor.Spec Monitor.Views Monitor.Refine Monitor.Wf.
+Import ListNotations.
+Open Scope Z_scope.
+
+(* ------------------------------------------------------------------ reserved names *)
+(* On EVERY history of directory views (no side condition on the events), from any initial
+   store: the reserved names keep exactly the definition the store had at start (or stay
+   absent), and no file ever becomes their owner. *)
+Theorem reserved_untouched : forall s h, Forall wf_fs h ->
+  forall q, reserved q = true ->
+    get q (st_store (run s h)) = get q s /\ get q (st_map (run s h)) = None.
+Proof. exact reserved_untouched_run. Qed.
+Print Assumptions reserved_untouched.
+
+(* ------------------------------------------------------------------ the store follows the files *)
+(* full strength: after every history the store is the specification's store *)
+Definition scan_refines_spec_statement : Prop :=
+  forall s h, Forall wf_fs h -> forall q, get q (st_store (run s h)) = spec_store (spec_run s h) q.
+
+(* files 0 (a.json) and 1 (b.json), name 2 (p), name 3 (q), definitions 10, 11, 12:
+   b defines p; a shadows p; b is rewritten without p; a is removed -> p is served from b's stale entry *)
+Definition stale_witness : list fs_view :=
+  [ [(1, (1, Some [(2, 10)]))];
+    [(0, (2, Some [(2, 11)])); (1, (1, Some [(2, 10)]))];
+    [(0, (2, Some [(2, 11)])); (1, (3, Some [(3, 12)]))];
+    [(1, (3, Some [(3, 12)]))] ].
+
+Theorem scan_refines_spec_refuted :
+  exists s h q, Forall wf_fs h /\ get q (st_store (run s h)) <> spec_store (spec_run s h) q.
+Proof.
+  exists [], stale_witness, 2. split.
+  - apply wf_histb_ok. vm_compute. reflexivity.
+  - vm_compute. discriminate.
+Qed.
+Print Assumptions scan_refines_spec_refuted.
+
+(* what the monitor answers on the witness: p -> 10 (b's old definition), the files say: no p *)
+Example stale_witness_values :
+  get 2 (st_store (run [] stale_witness)) = Some 10 /\ spec_store (spec_run [] stale_witness) 2 = None
+  /\ hist_ok [] stale_witness = false.
+Proof. vm_compute. repeat split. Qed.
+
+(* every history whose loads contain no shadowed drop (Spec.shadowed_drop: a file is reloaded
+   without a name it defined while a more recently loaded file also defines that name) *)
+Theorem scan_refines_spec_partial : forall s h, Forall wf_fs h -> hist_ok s h = true ->
+  forall q, get q (st_store (run s h)) = spec_store (spec_run s h) q.
+Proof. exact run_refines_spec. Qed.
+Print Assumptions scan_refines_spec_partial.
+
+(* the hypotheses are satisfiable by a history with shadowing, restoring after a removal,
+   restoring after the owner drops the name, a broken file and a reserved name in a file *)
+Definition good_history : list fs_view :=
+  [ [(0, (1, Some [(2, 10); (0, 13)]))];
+    [(0, (1, Some [(2, 10); (0, 13)])); (1, (2, Some [(2, 11); (3, 12)]))];
+    [(0, (1, Some [(2, 10); (0, 13)])); (1, (3, None))];
+    [(0, (1, Some [(2, 10); (0, 13)])); (1, (4, Some [(3, 12)]))];
+    [(0, (5, Some [(3, 14)])); (1, (4, Some [(3, 12)]))];
+    [(1, (4, Some [(3, 12)]))] ].
+Example scan_refines_spec_partial_nonvacuous :
+  Forall wf_fs good_history /\ hist_ok [(0, 90); (1, 91)] good_history = true /\
+  map (fun h => map (spec_store (spec_run [(0, 90); (1, 91)] (firstn h good_history))) [0; 1; 2; 3]) [1; 2; 3; 4; 5; 6]%nat =
+  [ [Some 90; Some 91; Some 10; None];
+    [Some 90; Some 91; Some 11; Some 12];
+    [Some 90; Some 91; Some 11; Some 12];
+    [Some 90; Some 91; Some 10; Some 12];
+    [Some 90; Some 91; None; Some 14];
+    [Some 90; Some 91; None; Some 12] ]%Z.
+Proof. split; [apply wf_histb_ok; vm_compute; reflexivity | vm_compute; split; reflexivity]. Qed.
